@@ -34,6 +34,8 @@ DECIMALS = ["0.5", "1.5", "2.5", "0.25", "10.75", "2,5", "0,5", "7,25"]
 LEAP_YEARS = [1804, 1896, 1904, 2000, 2096, 2104, 2196, 2024]
 CLOCKS = [("at 3 pm", (15, 0, 0)), ("15:30", (15, 30, 0)), ("10:05:33", (10, 5, 33)), ("12 am", (0, 0, 0)),
           ("at 12:00 pm", (12, 0, 0)), ("at 00:00", (0, 0, 0)), ("23:59:59", (23, 59, 59)), ("at 9 am", (9, 0, 0))]
+TZS = ["America/New_York", "Europe/Paris", "Australia/Sydney", "Australia/Lord_Howe", "America/Sao_Paulo", "Asia/Tehran",
+       "Europe/London", "Pacific/Auckland", "Asia/Kolkata", "UTC", "+0530", "EST", "America/St_Johns", "Africa/Cairo"]
 WORDS = {
     "now": ([(0, "second")], -1), "today": ([(0, "day")], -1), "yesterday": ([(1, "day")], -1),
     "tomorrow": ([(1, "day")], 1), "day before yesterday": ([(2, "day")], -1),
@@ -80,6 +82,9 @@ def gen_case(rnd):
     b = gen_base(rnd)
     case = {"base": iso(b), "pdf": rnd.choice(["past", "future", "current_period"]),
             "rtap": rnd.random() < 0.4, "clock": None, "word": None}
+    if rnd.random() < 0.25:
+        # the statement is about the wall clock of b: a TIMEZONE setting (incl. zones with DST) must not bend it
+        case["tz"] = rnd.choice(TZS)
     k = rnd.random()
     if k < 0.12:
         case["word"] = rnd.choice(sorted(WORDS))
@@ -157,6 +162,8 @@ def check_case(ctx, case):
     st = {"RELATIVE_BASE": parse_iso(case["base"]), "PREFER_DATES_FROM": case["pdf"]}
     if case["rtap"]:
         st["RETURN_TIME_AS_PERIOD"] = True
+    if case.get("tz"):
+        st["TIMEZONE"] = case["tz"]
     PathTap.reset()
     try:
         dd = DateDataParser(languages=["en"], settings=st).get_date_data(phrase)
@@ -167,7 +174,7 @@ def check_case(ctx, case):
     ctx.ran()
     units = sorted(set(u for n, u in (case.get("parts") or WORDS.get(case["word"], ([], 0))[0])))
     feats = {"form": case.get("form") or "word", "units": units, "clock": case["clock"] is not None,
-             "rtap": case["rtap"], "decimal": any(("." in str(n) or "," in str(n)) for n, u in case.get("parts") or []),
+             "rtap": case["rtap"], "tz": case.get("tz"), "decimal": any(("." in str(n) or "," in str(n)) for n, u in case.get("parts") or []),
              "path": path,
              "coincidence": bool(case["clock"] is not None and exp is not None
                                  and parse_iso(case["base"]).time().replace(microsecond=0) == exp.time()
@@ -195,7 +202,9 @@ def check_case(ctx, case):
         ctx.count("off_path:%s" % path)
         return
     ctx.count("on_path:relative-time")
-    ctx.nontrivial(case["base"], phrase, case["pdf"], case["rtap"])
+    ctx.nontrivial(case["base"], phrase, case["pdf"], case["rtap"], case.get("tz"))
+    if case.get("tz"):
+        ctx.count("with_TIMEZONE_setting")
     ctx.sample({"base": case["base"], "phrase": phrase, "settings": {k: v for k, v in st.items() if k != "RELATIVE_BASE"},
                 "result": iso(got), "period": got_period}, limit=3)
 
@@ -224,6 +233,13 @@ def run_shard(ctx, desc):
 
 def fixed_cases():
     out = []
+    for tz, b in (("America/New_York", datetime(2021, 3, 13, 12, 0)), ("America/New_York", datetime(2021, 11, 6, 23, 30)),
+                  ("Europe/Paris", datetime(2020, 2, 29, 23, 30)), ("Australia/Sydney", datetime(2022, 1, 31, 8, 15)),
+                  ("Australia/Lord_Howe", datetime(2021, 4, 3, 12, 0)), ("Europe/London", datetime(2021, 3, 27, 1, 30))):
+        for parts, form in (([["1", "day"]], "in"), ([["1", "month"]], "in"), ([["36", "hour"]], "in"), ([["1", "week"]], "ago"),
+                            ([["1", "year"], ["3", "month"]], "in"), ([["6", "month"]], "ago"), ([["2", "day"]], "ago")):
+            out.append({"base": iso(b), "pdf": "current_period", "rtap": False, "clock": None, "word": None, "tz": tz,
+                        "parts": parts, "form": form, "joiner": ", "})
     bases = [datetime(2020, 3, 31, 15, 0, 0), datetime(2020, 2, 29, 23, 59, 59), datetime(2019, 12, 31, 23, 59, 59, 999999),
              datetime(2021, 1, 31), datetime(1900, 3, 31, 12, 0), datetime(2000, 2, 29, 0, 0, 0)]
     for b in bases:
